@@ -18,7 +18,7 @@ def modelName : String := "cal"
 
 def intList : Sexp → Option (List Int)
   | .node (.atom "L" :: xs) => xs.mapM Sexp.toInt?
-  | _ => none
+  | s => s.toInt?.map fun n => [n]      -- a scalar where a list is expected: `as_list` (weekend = 6)
 
 def optIntList : Sexp → Option (Option (List Int))
   | .atom "N" => some none
@@ -28,11 +28,16 @@ def optInt : Sexp → Option (Option Int)
   | .atom "N" => some none
   | s => s.toInt?.map some
 
+/-- `adj = (adj or self.adj or 'm').lower()` and then `startswith('f'/'p'/'m')` (_drange.py:542-558): only the first
+letter of the spelling counts, in either case (`'F'`, `'following'`, `'Previous'`, `'modified'`) -/
 def adjOf (c : Cal) : Sexp → Option Adj
-  | .atom "f" => some .f
-  | .atom "p" => some .p
-  | .atom "m" => some .m
   | .atom "d" => some c.adj      -- adj = None: the calendar's own convention
+  | .atom s =>
+      match s.toLower.toList.head? with
+      | some 'f' => some .f
+      | some 'p' => some .p
+      | some 'm' => some .m
+      | _ => none
   | _ => none
 
 def okInt (n : Int) : String := s!"ok I:{n}"
@@ -55,17 +60,18 @@ def describe (c : Cal) : String :=
 
 def handle (s : St) (op : String) (args : List Sexp) : Option (St × String) := do
   match op, args with
-  | "new", [t0, t1, we, hol, adj] =>
+  -- `newd`: the same calendar, the caller handed the holidays over as `datetime.date` / datetimes with a time of day
+  | "new", [t0, t1, we, hol, adj] | "newd", [t0, t1, we, hol, adj] =>
       let t0 ← t0.toInt?; let t1 ← t1.toInt?; let we ← intList we; let hol ← intList hol
       if degenerate we then none
-      let c0 : Cal := { t0, t1, weekend := we, hol, adj := .m, month := Civil.month }
+      let c0 : Cal := { t0, t1, weekend := we, hol, adj := .m, month := ymKey }
       let a ← adjOf c0 adj
       let c : Cal := { c0 with adj := a }
       pure ({ s with cur := some c, tbl := c.bdays }, "ok N")
   | "reg", [.atom k, hol, we, t0, t1] =>
       let hol ← optIntList hol; let we ← optIntList we; let t0 ← optInt t0; let t1 ← optInt t1
       if degenerate (we.getD []) then none
-      let (r, c) := s.reg.calendar Civil.month k { hol, weekend := we, t0, t1 }
+      let (r, c) := s.reg.calendar ymKey k { hol, weekend := we, t0, t1 }
       pure ({ cur := some c, tbl := c.bdays, reg := r }, describe c)
   | "ymd", [n] =>
       let n ← n.toInt?
